@@ -103,7 +103,7 @@ func (e *Encoder) prepare(idx Index, hashes []plumbing.Hash) (hashToIndex map[pl
 		if len(v.ParentHashes) > 2 {
 			extraEdgesCount += uint32(len(v.ParentHashes) - 1)
 		}
-		if hasGenerationV2 && v.GenerationV2Data() > math.MaxUint32 {
+		if hasGenerationV2 && v.GenerationV2Data() > math.MaxInt32 {
 			generationV2OverflowCount++
 		}
 	}
